@@ -141,7 +141,7 @@ class C13(Check):
             "and outside the root); `directory` absent / absolute / relative to the root / outside the root / "
             "non-existent, `file` and -I values absolute or relative to the directory or (wrongly) to the root, "
             "decorated with '.', 'x/..', '//' segments and trailing slashes; mixed with missing files, object files, "
-            "link commands, empty commands; malformed stream: missing keys, -I without value. A case is non-trivial "
+            "link commands, empty commands; databases repeating one `file` string under different `directory` values in every order (existing / missing / unsupported first); malformed stream: missing keys, -I without value. A case is non-trivial "
             "if some kept entry has a relative `directory` or a relative -I under a `directory`, or a '..' in a spelling")
     assumptions = [
         "no symbolic links in the tree (lexical walk = kernel walk; C15 covers links); cases whose spelling crosses a missing directory or a file are outside the domain (counted)",
@@ -301,6 +301,7 @@ class C13(Check):
             out.append(self.gen_case(level=0 if i % 5 == 0 else 1))
         for i in range(n // 6):
             out.append(self.gen_case(malformed=True))
+        out += self.same_spelling_groups()
         n_cli = 6 if self.tier == "quick" else 60
         for i in range(n // 5):
             c = self.gen_attr_case()
@@ -332,6 +333,59 @@ class C13(Check):
             a = "".join(rng.choice("//..ab.c") for _ in range(rng.randint(0, 14)))
             b = "".join(rng.choice("//..ab") for _ in range(rng.randint(0, 8)))
             out.append({"paths": [a, b]})
+        return out
+
+    def same_spelling_groups(self):
+        """Databases whose entries repeat ONE `file` string under different `directory` values (absent, relative,
+        absolute, with '..', non-existent), some resolving to an existing file and some not, in every order; and
+        the same spelling first in an unsupported entry (empty command / object-like command) then in a supported
+        one.  Entries must be independent of each other whatever was skipped before."""
+        rng = self.rng
+        B = BTAG
+        tree = [list(x) for x in FULL_TREE]
+        dirs = [None, ".", "build", B + "/root/build", "src/../build/", "src", "../out", B + "/out/build", "stale", "src/sub/.."]
+        files = ["main.c", "../src/a.c", "src/a.c", "./gen.c", "../main.c"]
+
+        def entry(d, f, k):
+            argv = ["gcc", "-c", f] + ([["-Iinc"], ["-I", "../inc"], [], ["-isystem", "."]][k % 4])
+            e = {"file": f, "arguments": argv}
+            if d is not None:
+                e["directory"] = d
+            return e
+
+        def case(es):
+            return {"tree": tree, "cwd": ["root"], "rootdir": B + "/root", "entries": es}
+        out = []
+        # every ordered pair of directories for every spelling
+        for f in files:
+            for i, d1 in enumerate(dirs):
+                for j, d2 in enumerate(dirs):
+                    if i != j:
+                        out.append(case([entry(d1, f, i), entry(d2, f, j)]))
+        # ordered triples (all for three spellings in the thorough tier, a random sample otherwise)
+        triples = [(f, a, b, c) for f in files[:3] for a in range(len(dirs)) for b in range(len(dirs))
+                   for c in range(len(dirs)) if len({a, b, c}) == 3]
+        if self.tier == "quick":
+            triples = rng.sample(triples, 250)
+        for f, a, b, c in triples:
+            out.append(case([entry(dirs[a], f, a), entry(dirs[b], f, b), entry(dirs[c], f, c)]))
+        # an unsupported entry first, then supported ones with the same spelling (and the reverse)
+        for f in files:
+            for d1 in dirs[:6]:
+                for d2 in dirs[:6]:
+                    un = {"file": f, "arguments": []}
+                    if d1 is not None:
+                        un["directory"] = d1
+                    out.append(case([un, entry(d2, f, 0)]))
+                    out.append(case([entry(d2, f, 1), un, entry(d1, f, 2)]))
+        # random longer mixes: 3-6 entries over two spellings, duplicates allowed
+        for _ in range(150 if self.tier == "quick" else 4000):
+            fs2 = rng.sample(files, 2)
+            es = [entry(rng.choice(dirs), rng.choice(fs2), rng.randrange(4)) for _ in range(rng.randint(3, 6))]
+            if rng.random() < 0.3:
+                es.insert(rng.randrange(len(es)), {"file": rng.choice(fs2), "command": ""})
+            out.append(case(es))
+        self.stats["same_spelling_group_cases"] = len(out)
         return out
 
     def gen_attr_case(self):
@@ -740,7 +794,8 @@ class C13(Check):
 
     def extra_coverage(self):
         return {"input_distribution": self.stats.get("dist", {}), "gcc_oracle": self.stats.get("oracle", {}),
-                "domain_breakdown": self.stats.get("domain", {}), "coverage_cli_runs": self.stats.get("cli_runs", 0)}
+                "domain_breakdown": self.stats.get("domain", {}), "coverage_cli_runs": self.stats.get("cli_runs", 0),
+                "same_spelling_group_cases": self.stats.get("same_spelling_group_cases", 0)}
 
     # -------------------------------------------------------------- S versus gcc
     def self_tests(self):
